@@ -111,20 +111,22 @@ Fixpoint b64dec_fuel (fuel : nat) (s : str) : option str :=
   | S f =>
     match s with
     | [] => Some []
-    | [a; b; "="; "="] =>
-        match b64_val a, b64_val b with
-        | Some va, Some vb => Some [ascii_of_N ((va * 4 + vb / 16) mod 256)]
-        | _, _ => None end
-    | [a; b; c; "="] =>
-        match b64_val a, b64_val b, b64_val c with
-        | Some va, Some vb, Some vc => Some [ascii_of_N ((va * 4 + vb / 16) mod 256); ascii_of_N (((vb mod 16) * 16 + vc / 4) mod 256)]
-        | _, _, _ => None end
     | a :: b :: c :: d :: r =>
-        match b64_val a, b64_val b, b64_val c, b64_val d, b64dec_fuel f r with
-        | Some va, Some vb, Some vc, Some vd, Some rest =>
-            Some (ascii_of_N ((va * 4 + vb / 16) mod 256) :: ascii_of_N (((vb mod 16) * 16 + vc / 4) mod 256)
-                  :: ascii_of_N (((vc mod 4) * 64 + vd) mod 256) :: rest)
-        | _, _, _, _, _ => None end
+        if (match r with [] => true | _ => false end) && Ascii.eqb d "=" then
+          if Ascii.eqb c "=" then
+            match b64_val a, b64_val b with
+            | Some va, Some vb => Some [ascii_of_N ((va * 4 + vb / 16) mod 256)]
+            | _, _ => None end
+          else
+            match b64_val a, b64_val b, b64_val c with
+            | Some va, Some vb, Some vc => Some [ascii_of_N ((va * 4 + vb / 16) mod 256); ascii_of_N (((vb mod 16) * 16 + vc / 4) mod 256)]
+            | _, _, _ => None end
+        else
+          match b64_val a, b64_val b, b64_val c, b64_val d, b64dec_fuel f r with
+          | Some va, Some vb, Some vc, Some vd, Some rest =>
+              Some (ascii_of_N ((va * 4 + vb / 16) mod 256) :: ascii_of_N (((vb mod 16) * 16 + vc / 4) mod 256)
+                    :: ascii_of_N (((vc mod 4) * 64 + vd) mod 256) :: rest)
+          | _, _, _, _, _ => None end
     | _ => None
     end
   end.
